@@ -157,8 +157,11 @@ impl<'a> IndexSelector<'a> {
         let index_name = self.arena.alloc_str(matching_index.name());
         let table_def_alloc = self.arena.alloc(table_def.clone());
 
-        let covered_columns = vec![col_name.to_string()];
-        let residual = compute_residual_filter(self.arena, filter.predicate, &covered_columns);
+        // `col = NULL` is never true; a lookup with an encoded NULL key would return the NULL rows
+        if matches!(literal_expr, Expr::Literal(crate::sql::ast::Literal::Null)) {
+            return None;
+        }
+        let residual = compute_residual_filter(self.arena, filter.predicate, literal_expr);
 
         let index_scan = self.arena.alloc(PhysicalOperator::SecondaryIndexScan(
             PhysicalSecondaryIndexScan {
@@ -347,47 +350,35 @@ pub fn extract_equality_predicate<'a>(expr: &'a Expr<'a>) -> Option<(&'a str, &'
     }
 }
 
+/// The part of `predicate` that the index lookup does not enforce: every conjunct except
+/// the one `column = literal` comparison whose literal (`used_literal`) became the lookup
+/// key. Other comparisons on the indexed column (`id = 1 AND id > 6`, `id BETWEEN ..`) are
+/// not implied by the lookup and must stay in the filter.
 pub fn compute_residual_filter<'a>(
     arena: &'a Bump,
     predicate: &'a Expr<'a>,
-    index_columns: &[String],
+    used_literal: &'a Expr<'a>,
 ) -> Option<&'a Expr<'a>> {
     match predicate {
-        Expr::BinaryOp { left, op, right } => match op {
-            BinaryOperator::And => {
-                let left_residual = compute_residual_filter(arena, left, index_columns);
-                let right_residual = compute_residual_filter(arena, right, index_columns);
+        Expr::BinaryOp { left, op: BinaryOperator::And, right } => {
+            let left_residual = compute_residual_filter(arena, left, used_literal);
+            let right_residual = compute_residual_filter(arena, right, used_literal);
 
-                match (left_residual, right_residual) {
-                    (Some(l), Some(r)) => Some(arena.alloc(Expr::BinaryOp {
-                        left: l,
-                        op: BinaryOperator::And,
-                        right: r,
-                    })),
-                    (Some(l), None) => Some(l),
-                    (None, Some(r)) => Some(r),
-                    (None, None) => None,
-                }
+            match (left_residual, right_residual) {
+                (Some(l), Some(r)) => Some(arena.alloc(Expr::BinaryOp {
+                    left: l,
+                    op: BinaryOperator::And,
+                    right: r,
+                })),
+                (Some(l), None) => Some(l),
+                (None, Some(r)) => Some(r),
+                (None, None) => None,
             }
-            BinaryOperator::Eq
-            | BinaryOperator::Lt
-            | BinaryOperator::LtEq
-            | BinaryOperator::Gt
-            | BinaryOperator::GtEq => {
-                if predicate_uses_index_column(predicate, index_columns) {
-                    None
-                } else {
-                    Some(predicate)
-                }
-            }
-            _ => Some(predicate),
-        },
-        Expr::Between { expr, .. } => {
-            if predicate_uses_index_column(expr, index_columns) {
-                None
-            } else {
-                Some(predicate)
-            }
+        }
+        Expr::BinaryOp { left, op: BinaryOperator::Eq, right }
+            if std::ptr::eq(*left, used_literal) || std::ptr::eq(*right, used_literal) =>
+        {
+            None
         }
         _ => Some(predicate),
     }
